@@ -136,6 +136,57 @@ theorem run_without_refresh_touches_nothing {σ : St} (hidle : σ.phase = .idle)
   obtain ⟨_, c2, c3, c4, _, c6⟩ := hc
   exact ⟨c2.trans h2, c3.trans h3, c4.trans h4, c6.trans h6⟩
 
+/-- the catalogue side of `deleted_only_expired`: a step changes the `MarkDelete` flag of a
+catalogue entry only in the loop iteration for that very shard — which was reported as expired
+(`d ≠ 0`, `end + d < clock`) — provided the groups' shard ids are ascending and consecutive, as
+`createShards` allocates them (`pruneShardGroups` finds the entry with `sort.Search`). -/
+theorem prune_marks_only_reported {σ : St} (hT : TimeInv σ) (hst : CatStatic σ.cat)
+    (hnh : ∀ g ∈ σ.cat, NoHoles g) (op : Op) :
+    ∀ g' ∈ (step σ op).cat, ∀ c' ∈ g'.shards, ∃ g ∈ σ.cat, ∃ c ∈ g.shards, c'.sid = c.sid ∧
+      (c'.marked = c.marked ∨
+        ∃ q rest, σ.queue = q :: rest ∧ q.sid = c'.sid ∧ q.dUsed ≠ 0 ∧ q.endT + q.dUsed < σ.clock) := by
+  intro g' hg' c' hc'
+  have same : (step σ op).cat = σ.cat → ∃ g ∈ σ.cat, ∃ c ∈ g.shards, c'.sid = c.sid ∧
+      (c'.marked = c.marked ∨
+        ∃ q rest, σ.queue = q :: rest ∧ q.sid = c'.sid ∧ q.dUsed ≠ 0 ∧ q.endT + q.dUsed < σ.clock) :=
+    fun h => ⟨g', h ▸ hg', c', hc', rfl, Or.inl rfl⟩
+  cases op with
+  | tick dt => apply same; simp only [step]; split <;> rfl
+  | alter d => exact same rfl
+  | load sid =>
+    apply same
+    simp only [step, loadShard]
+    split
+    · rfl
+    · split <;> rfl
+  | close sid => exact same rfl
+  | refresh ok =>
+    apply same
+    simp only [step]
+    split
+    · split <;> rfl
+    · rfl
+  | collect => apply same; simp only [step]; split <;> rfl
+  | complete => apply same; simp only [step]; rw [completeAll_cat]
+  | proc o =>
+    simp only [step] at hg'
+    split at hg'
+    · rename_i q rest hph hq
+      obtain ⟨g, hg, c, hc, h1, _, h3⟩ := procItem_marks_only hst hnh hg' hc'
+      refine ⟨g, hg, c, hc, h1, ?_⟩
+      rcases h3 with h3 | h3
+      · exact Or.inl h3
+      · have := hT.queue q (by rw [hq]; exact List.mem_cons_self)
+        exact Or.inr ⟨q, rest, hq, h3.symm, this.1, this.2⟩
+    · exact ⟨g', hg', c', hc', rfl, Or.inl rfl⟩
+
+/-- the assumption matters: with a hole in the ids, pruning the missing id marks its successor
+(`sort.Search` returns the first entry with id ≥ the one asked for). No code path makes holes:
+`Data.DropShard`, the only function that removes an entry, has no caller. -/
+theorem prune_hole_marks_neighbour :
+    (pruneGroup 2 ⟨1, 0, 100, true, [⟨1, true, false⟩, ⟨3, true, false⟩]⟩).shards =
+      [⟨1, true, false⟩, ⟨3, true, true⟩] := by decide
+
 /-! ## 4. raising the duration before the run keeps the data -/
 
 /-- every shard object of the store is listed by the catalogue (it is, unless an earlier run
